@@ -112,7 +112,8 @@ class Body:
         self.facts = facts
         self.raw = raw
         if not os.environ.get("VERIF_NONORM"):
-            from normalize import thread_flags, replace_none_is_take, lower_option_replace, lower_identity_calls
+            from normalize import thread_flags, replace_none_is_take, lower_option_replace, lower_identity_calls, scalarize_plain_aggregates
+            scalarize_plain_aggregates(raw, facts.types)
             thread_flags(raw, facts.types)
             replace_none_is_take(raw, facts.types)
             lower_option_replace(raw, facts.types)
@@ -376,8 +377,16 @@ class Body:
             for e in proj[1:]:
                 p = p.extend(_elem_of(e))
             return p
-        base = self._expand_local(local, _depth, alias)
-        p = base
+        ar = self._accessor_result(local, _depth, alias) if len(proj) >= 2 and proj[0]["k"] == "downcast" and proj[1]["k"] == "field" else None
+        if ar is not None:
+            # `(x as Some).0` of `x = self.old_table()`: a reference to the old table inside the pending-resize field
+            p = ar[0].extend(ar[1]["left"]) if ar[1]["left"] is not None else ar[0]
+            for e in ar[1]["tail"]:
+                p = p.extend(e)
+            p = p.extend(("ref",))
+            proj = proj[2:]
+        else:
+            p = self._expand_local(local, _depth, alias)
         for e in proj:
             p = p.extend(_elem_of(e))
         # a capture read through a closure value built in this body (a closure body spliced in next to its creation site):
@@ -410,11 +419,40 @@ class Body:
             hops += 1
         return p
 
+    def _accessor_result(self, local, depth, alias):
+        """(receiver path, accessor description) if the local is the result of a private accessor handing out the old table"""
+        acc = getattr(self.facts, "old_accessors", None)
+        if acc is None or local == 0 or 1 <= local <= self.arg_count or depth > 30:
+            return None
+        d = self.unique_def(local)
+        hops = 0
+        while d is not None and d[1] == "assign" and d[2]["rv"]["k"] == "use" and d[2]["rv"]["op"]["k"] in ("copy", "move") \
+                and not d[2]["rv"]["op"]["place"]["proj"] and hops < 6:
+            l2 = d[2]["rv"]["op"]["place"]["local"]
+            if l2 == 0 or 1 <= l2 <= self.arg_count:
+                return None
+            d = self.unique_def(l2)
+            hops += 1
+        if d is None or d[1] != "call":
+            return None
+        t = d[2]
+        res = t.get("resolved") or {}
+        a = acc.get(res.get("path")) if res.get("local") else None
+        if a is None or len(t.get("args", [])) != 1 or t["args"][0]["k"] not in ("copy", "move"):
+            return None
+        rp = self.expand(t["args"][0]["place"], depth + 1, alias)
+        if rp.elems and rp.elems[-1][0] == "ref":
+            rp = Path(rp.root, rp.elems[:-1])
+        return rp, a
+
     def _expand_local(self, local, depth, alias=False):
         if depth > 40 or local == 0 or 1 <= local <= self.arg_count:
             return Path(local)
         d = self.unique_def(local)
         if d is None or d[1] != "assign":
+            ar = self._accessor_result(local, depth, alias) if d is not None and d[1] == "call" else None
+            if ar is not None:
+                return ar[0].extend(ar[1]["left"]) if ar[1]["left"] is not None else ar[0]      # the accessor's result stands for the field it projects from
             return Path(local)
         rv = d[2]["rv"]
         k = rv["k"]
